@@ -111,3 +111,54 @@ func ZZ_C11_reap() {
 		zzsym.Assert(len(m.txNotifyCh) == 1, "manager-notified-of-new-transactions")
 	}
 }
+
+// zzQueueSeq: the sequencing layer as the single sequencer implements it
+// (C10): a batch handed out is durably removed from its queue at that moment.
+type zzQueueSeq struct {
+	zzSeq
+	queue [][][]byte
+	ts    []int64
+}
+
+func (s *zzQueueSeq) GetNextBatch(ctx context.Context, req coresequencer.GetNextBatchRequest) (*coresequencer.GetNextBatchResponse, error) {
+	if len(s.queue) == 0 {
+		return &coresequencer.GetNextBatchResponse{Batch: &coresequencer.Batch{}, Timestamp: zzsym.TimeOf(1 << 60)}, nil
+	}
+	b, t := s.queue[0], s.ts[0]
+	s.queue, s.ts = s.queue[1:], s.ts[1:]
+	return &coresequencer.GetNextBatchResponse{Batch: &coresequencer.Batch{Transactions: b}, Timestamp: zzsym.TimeOf(t)}, nil
+}
+
+// ZZ_C11_take: a batch of one transaction is taken from the sequencing layer
+// by a production step that dies at an arbitrary durable write (or is not
+// interrupted at all), with an arbitrary batch timestamp.  Afterwards the
+// transaction is either still with the sequencing layer or in a block the
+// node has stored at the next height -- it is not lost.
+func ZZ_C11_take() {
+	zzsym.FreezeClock()
+	I, H := zzHeights()
+	e := zzNewEnv(I)
+	m, tip := zzInvState(e, H)
+	tx := zzsym.BytesN("tx", 1)
+	ts := zzTimeNs("batchTime")
+	q := &zzQueueSeq{queue: [][][]byte{{tx}}, ts: []int64{ts}}
+	m.sequencer = q
+	crash := zzsym.Pick("crashAt", 7)
+	if crash < 6 {
+		e.store.crashAt = crash
+	}
+	zzsym.Region("dies-before-the-block-is-first-saved", crash < 2)
+	zzsym.Region("batch-stamped-before-the-chain-tip", ts < int64(tip.header.BaseHeader.Time))
+	_ = m.publishBlockInternal(context.Background())
+	zzsym.Reach("step-ended")
+	stillQueued := len(q.queue) > 0
+	inBlock := false
+	if sl, ok := e.store.blocks[H+1]; ok {
+		for _, t := range sl.data.Txs {
+			if bytes.Equal(t, tx) {
+				inBlock = true
+			}
+		}
+	}
+	zzsym.Assert(stillQueued || inBlock, "taken-transaction-is-not-lost")
+}
